@@ -42,6 +42,16 @@ def _fresh(expr):
     return ast.parse(ast.unparse(expr), mode="eval").body
 
 
+def _subst_keep(expr, mapping):
+    """like subst_names, but the replacement nodes are used as they are (synthetic names such as `xs[*]`)"""
+    class _S(ast.NodeTransformer):
+        def visit_Name(self, node):
+            if node.id in mapping and isinstance(node.ctx, ast.Load):
+                return ast.Name(mapping[node.id].id, ast.Load())
+            return node
+    return _S().visit(_fresh(expr))
+
+
 def subst_names(expr, mapping):
     return _Subst(mapping).visit(_fresh(expr))
 
@@ -100,6 +110,23 @@ def atom_kinds(e, positive):
         for a, b in ((e.left, e.comparators[0]), (e.comparators[0], e.left)):
             if isinstance(a, ast.Attribute) and a.attr == "shape" and isinstance(b, (ast.Tuple, ast.List)):
                 add(a.value, "ndim")
+    parents = {}
+    for n in ast.walk(e):
+        for ch in ast.iter_child_nodes(n):
+            parents[id(ch)] = n
+    # whole-shape comparison with a tuple constrains every axis
+    if isinstance(e, ast.Compare) and len(e.ops) == 1:
+        for a, b in ((e.left, e.comparators[0]), (e.comparators[0], e.left)):
+            if isinstance(a, ast.Attribute) and a.attr == "shape" and isinstance(b, (ast.Tuple, ast.List)):
+                for k in range(len(b.elts)):
+                    add(a.value, "shape[%d]" % k)
+    # constraints on the VALUES an index array holds: loc[0] >= 0, np.all(loc[1:] >= loc[:-1]), np.max(loc) < n
+    for n in ast.walk(e):
+        if isinstance(n, ast.Subscript) and isinstance(n.value, ast.Name) and not isinstance(parents.get(id(n)), ast.Attribute):
+            add(n.value, "values")
+        elif isinstance(n, ast.Call) and pf.call_name(n) in ("np.min", "np.max", "np.all", "np.any", "np.amin", "np.amax",
+                                                             "min", "max") and n.args and isinstance(n.args[0], ast.Name):
+            add(n.args[0], "values")
     for n in ast.walk(e):
         if isinstance(n, ast.Attribute):
             if n.attr in CONTIG_ATTRS and isinstance(n.value, ast.Attribute) and n.value.attr == "flags":
@@ -107,6 +134,13 @@ def atom_kinds(e, positive):
                     add(n.value.value, "contig")
             elif n.attr == "shape":
                 add(n.value, "shape")
+                par = parents.get(id(n))
+                if isinstance(par, ast.Subscript) and par.value is n:
+                    ix = par.slice
+                    if isinstance(ix, ast.Constant) and isinstance(ix.value, int):
+                        add(n.value, "shape[%d]" % ix.value)
+                    elif isinstance(ix, ast.UnaryOp) and isinstance(ix.op, ast.USub) and isinstance(ix.operand, ast.Constant):
+                        add(n.value, "shape[-%d]" % ix.operand.value)
             elif n.attr in ("ndim", "size", "dtype", "nfeat"):
                 add(n.value, n.attr)
         elif isinstance(n, ast.Subscript) and isinstance(n.value, ast.Attribute) and n.value.attr == "flags" \
@@ -353,6 +387,22 @@ class FunctionGuards:
             if isinstance(it, ast.Call) and pf.call_name(it) == "enumerate" and it.args and isinstance(var, ast.Tuple) \
                     and len(var.elts) == 2:
                 it, var = it.args[0], var.elts[1]
+            # for a, b in zip(xs, ys): <guards on a, b>   -> facts about every element: xs__each, ys__each
+            it0, var0 = a.iter, a.target
+            pairs = []
+            if isinstance(it0, ast.Call) and pf.call_name(it0) == "zip" and isinstance(var0, ast.Tuple) \
+                    and len(var0.elts) == len(it0.args):
+                pairs = [(x, v) for x, v in zip(it0.args, var0.elts)]
+            elif isinstance(it0, ast.Name) and isinstance(var0, ast.Name):
+                pairs = [(it0, var0)]
+            mapping = {v.id: ast.Name("%s__each" % x.id, ast.Load()) for x, v in pairs
+                       if isinstance(x, ast.Name) and isinstance(v, ast.Name)}
+            if mapping:
+                for st in a.body:
+                    for e, pos in self._stmt_atoms(st) if isinstance(st, (ast.Assert, ast.If)) else []:
+                        names = {n.id for n in ast.walk(e) if isinstance(n, ast.Name)}
+                        if names & set(mapping):
+                            atoms.append((_subst_keep(e, mapping), pos))
             if isinstance(it, (ast.List, ast.Tuple)) and isinstance(var, ast.Name) and it.elts \
                     and not any(isinstance(x, ast.Starred) for x in it.elts):
                 for st in a.body:
@@ -552,5 +602,16 @@ def buffer_layout(tree, sites, c_kind_of=None):
                 ids = {nid for nid, d in nk.items() if kind in d.get(subj, ())}
                 if ids and fg.guaranteed(ids, [cn.id]):
                     have.add(kind)
-            out.append({"site": s_, "subject": subj, "arg": argi, "have": have, "missing": {"contig", "dtype"} - have})
+            # kinds established by an explicit check (assert / raising test), as opposed to a conversion
+            checked = set()
+            for kind in ("contig", "dtype"):
+                ids = set()
+                for nid, ats in fg.atoms.items():
+                    for e, pos in ats:
+                        if kind in atom_kinds(e, pos).get(subj, ()):
+                            ids.add(nid)
+                if ids and fg.guaranteed(ids, [cn.id]):
+                    checked.add(kind)
+            out.append({"site": s_, "subject": subj, "arg": argi, "have": have, "missing": {"contig", "dtype"} - have,
+                        "checked": checked})
     return out
